@@ -81,6 +81,18 @@ def run(ctx):
                                     fn.where(s['ln']), bad='%s builds attributes with is_convert = self.%s, but %s::new fills that with `%s`' % (
                                         fn.path, '.'.join(pp[1]), owner.split('::')[-1], detail))
                         continue
+                    if pp is not None and pp[1] == () and pp[0] <= len(fn.j.get('inputs') or []) and (fn.j['inputs'][pp[0] - 1].get('s') == 'bool'):
+                        # a builder helper that receives the flag itself (`into_attributes(self, n_objects, is_convert)`): every caller passes
+                        # the converted map's flag
+                        sites = F.callers().get(fn.path, [])
+                        bad = []
+                        for cfn, cbb, ct in sites:
+                            ca = prov.prov_of(cfn).call_args(cbb)
+                            if pp[0] > len(ca) or not from_converted(ca[pp[0] - 1]):
+                                bad.append(cfn.path)
+                        ctx.require(bool(sites) and not bad, 'C14-R1', key, 'is_convert is a parameter; every one of the %d callers passes <convert_ref(..)>.is_convert' % len(sites),
+                                    fn.where(s['ln']), bad='%s receives is_convert as a parameter, but %s pass(es) something other than the converted map\'s flag' % (fn.path, bad or 'no caller'))
+                        continue
                     ctx.violation('C14-R1', key, '%s builds %s with is_convert = `%s`, not the converted map\'s flag' % (fn.path, adt.split('::')[-1], prov.show(v, maxdepth=4)),
                                   fn.where(s['ln']))
     ctx.floor('C14-R1', n, 5, 'constructions of Taiko/Catch/ManiaDifficultyAttributes')
